@@ -7,6 +7,7 @@ import Driver.Num
 import Driver.C16
 import Driver.C03
 import Driver.Funk
+import Driver.C14
 open Lean LK.Driver
 
 def handle (op : String) (args : Json) : Except String Json :=
@@ -22,6 +23,7 @@ def handle (op : String) (args : Json) : Except String Json :=
   | "c05.last_n" => LK.Driver.Misc.c05LastN args
   | "c20.sample" => LK.Driver.Misc.c20Sample args
   | "c07.global" => LK.Driver.Misc.c07Global args
+  | "c14.run" => LK.Driver.C14.run args
   | "c13.canon_json" => LK.Driver.C13.canon args
   | "c15.crash" => LK.Driver.Misc.c15Crash args
   | "c10.funksvd" => LK.Driver.Funk.trainOp args
